@@ -11,6 +11,7 @@ type CaseC04 struct {
 	Boxes   []ref.Box
 	H, V    int64
 	Spatial bool
+	Spell   int64 `json:",omitempty"`
 }
 
 // cover returns boxes that tile b exactly, splitting at most dh horizontal and dv vertical levels.
@@ -78,6 +79,26 @@ func genC04(t *rapid.T) *CaseC04 {
 	if c.Spatial {
 		maxDV = 2
 	}
+	if !c.Spatial && c.H <= 30 && c.V <= 30 && rapid.IntRange(0, 14).Draw(t, "wide") == 0 {
+		// wide zoom spread (up to 5 levels per axis) with a few large, partially overlapping pieces of one target
+		// voxel (columns, slabs, quarters) and one small deep voxel; mostly incompletely filled
+		tg := targets[0]
+		for i := rapid.IntRange(2, 6).Draw(t, "nPieces"); i > 0; i-- {
+			dh := rapid.Int64Range(0, 2).Draw(t, "pdh")
+			dv := rapid.Int64Range(0, 2).Draw(t, "pdv")
+			c.Boxes = append(c.Boxes, ref.Box{H: tg.H + dh, X: tg.X<<uint(dh) + rapid.Int64Range(0, (1<<uint(dh))-1).Draw(t, "px"), Y: tg.Y<<uint(dh) + rapid.Int64Range(0, (1<<uint(dh))-1).Draw(t, "py"),
+				V: tg.V + dv, F: tg.F<<uint(dv) + rapid.Int64Range(0, (1<<uint(dv))-1).Draw(t, "pf")})
+		}
+		dh := rapid.Int64Range(3, 5).Draw(t, "deepH")
+		dv := rapid.Int64Range(3, 5).Draw(t, "deepV")
+		c.Boxes = append(c.Boxes, ref.Box{H: tg.H + dh, X: tg.X<<uint(dh) + rapid.Int64Range(0, (1<<uint(dh))-1).Draw(t, "qx"), Y: tg.Y<<uint(dh) + rapid.Int64Range(0, (1<<uint(dh))-1).Draw(t, "qy"),
+			V: tg.V + dv, F: tg.F<<uint(dv) + rapid.Int64Range(0, (1<<uint(dv))-1).Draw(t, "qf")})
+		if rapid.Bool().Draw(t, "wperm") {
+			c.Boxes = rapid.Permutation(c.Boxes).Draw(t, "wp")
+		}
+		c.Spell = genSpell(t)
+		return c
+	}
 	for _, tg := range targets {
 		ms := cover(t, tg, maxDH, maxDV, c.Spatial)
 		switch rapid.IntRange(0, 3).Draw(t, "hole") {
@@ -142,6 +163,7 @@ func genC04(t *rapid.T) *CaseC04 {
 	if len(c.Boxes) > 1 {
 		c.Boxes = rapid.Permutation(c.Boxes).Draw(t, "perm")
 	}
+	c.Spell = genSpell(t)
 	return c
 }
 
@@ -204,6 +226,10 @@ func classifyC04(c *CaseC04) (bool, []string) {
 	if c.Spatial {
 		cl = append(cl, "spatial-api")
 	}
+	mh, mv := ref.MaxZooms(c.Boxes)
+	if mh-c.H > 2 || mv-c.V > 3 {
+		cl = append(cl, "wide-zoom-spread")
+	}
 	return nt, uniq(cl)
 }
 
@@ -222,10 +248,7 @@ func checkC04(c *CaseC04, fl *Fails) {
 	var err error
 	var outBoxes []ref.Box
 	if c.Spatial {
-		ids := make([]string, len(c.Boxes))
-		for i, b := range c.Boxes {
-			ids[i] = b.Spatial()
-		}
+		ids := spelledSpatial(c.Boxes, c.Spell)
 		out, err = integrate.MergeSpatialIds(ids, c.H)
 		if err != nil {
 			fl.Add("error", "MergeSpatialIds: %v", err)
@@ -246,7 +269,7 @@ func checkC04(c *CaseC04, fl *Fails) {
 		}
 		out = ext
 	} else {
-		out, err = integrate.MergeExtendedSpatialIds(boxesExt(c.Boxes), c.H, c.V)
+		out, err = integrate.MergeExtendedSpatialIds(spelledExt(c.Boxes, c.Spell), c.H, c.V)
 		if err != nil {
 			fl.Add("error", "MergeExtendedSpatialIds: %v", err)
 			return
